@@ -1159,7 +1159,11 @@ impl<'p, W, R, T> CompilationScope<'p, W, R, T> {
                     new_types.push(if let XType::Auto = t.as_ref() {
                         match args {
                             None => return Err(CompilationError::AutoSpecializationWithoutCall),
-                            Some(args) => self.type_of(&args[i])?,
+                            // a "$" needs an argument at its position to take its type from
+                            Some(args) => match args.get(i) {
+                                Some(arg) => self.type_of(arg)?,
+                                None => return Err(CompilationError::InvalidAutoLocation),
+                            },
                         }
                     } else {
                         t.clone()
